@@ -5,7 +5,7 @@
    A frame is a list of bytes; the frame "as a number" is le_decode frame, whose bit i is bit
    (i mod 8) of byte (i / 8) (Base.Bytes.le_decode_testbit): bit 0 of byte 0 first. *)
 From Coq Require Import ZArith List Bool.
-From CV Require Import Base.Val Base.Bytes Base.Bits Base.Tys Gen.Tables Gen.Src Model.Codec Model.Pdo
+From CV Require Import Base.Val Base.Bytes Base.Bits Base.Tys Gen.Tables Gen.SrcC05 Model.Codec Model.Pdo
   Proofs.Codec_proofs Proofs.Pdo_proofs Proofs.Src_eq_pdo.
 Import ListNotations.
 Open Scope Z_scope.
@@ -75,7 +75,7 @@ Theorem C05_write_preserves_neighbours : forall frame dt off len ft v dt2 off2 l
 Proof. exact pdo_write_preserves_other. Qed.
 
 (* Tie to the source text: PdoVariable.get_data / set_data as translated from the CURRENT source by
-   tools/py2coq.py (Gen/Src.v, regenerated on every run) are the model functions the theorems above are about
+   tools/py2coq.py (Gen/SrcC05.v, regenerated on every run) are the model functions the theorems above are about
    (a mapped field has at least one bit). *)
 Theorem C05_source_get_data_is_model : forall frame dt off len, 0 <= off -> 1 <= len ->
   src_pdo_get_data frame (is_signed dt) (od_size dt) off len = pdo_get_data frame dt off len.
